@@ -12,8 +12,8 @@
      v2/pkg/engine/resolve/inputtemplate.go renderContextVariable + SetInputUndefinedVariables and
      graphql_datasource.go compactAndUnNullVariables/cleanupVariables (value level).
    State of the Go code: with the repairs c15_fix_raw-control-char, c15_fix_default-null-list-wrapped,
-   c15_fix_block-blank-only and c15_fix_block-escaped-triple-quote applied (the functions they replaced
-   are kept in History.v).
+   c15_fix_block-blank-only, c15_fix_block-escaped-triple-quote, c15_fix_block-quote-next-to-whitespace and
+   c15_fix_braced-unicode-escape applied (the functions they replaced are kept in History.v).
    Literals are lib/Gql.v [value]s: strings carry the RAW bytes between the delimiters (for block
    strings: everything between the opening and the closing triple quote), numbers the raw token
    including a leading '-'.  No proofs here. *)
@@ -65,21 +65,31 @@ Definition blex0 : blex := {| bl_escaped := false; bl_quotes := 0; bl_ws := 0; b
 
 Definition is_blockws (b : byte) : bool := (b =? 32) || (b =? 9) || (b =? 13) || (b =? 10).
 
+(* since c15_fix_block-quote-next-to-whitespace the loop body starts with
+     if quoteCount != 0 && next != QUOTE { reached = true (lead = ws if it was not); ws = 0 }
+   (quotes that did not close the string are content) and a backslash sets reachedFirstNonWhitespace
+   like any other character; the step function it replaced is History.blex_step_v1 *)
 Definition blex_step (st : blex) (b : byte) : blex :=
   if bl_closed st then st
-  else if is_blockws b then
-    {| bl_escaped := false; bl_quotes := 0; bl_ws := bl_ws st + 1; bl_reached := bl_reached st; bl_lead := bl_lead st; bl_closed := false |}
-  else if b =? 34 then
-    if bl_escaped st then
-      {| bl_escaped := false; bl_quotes := bl_quotes st; bl_ws := bl_ws st; bl_reached := bl_reached st; bl_lead := bl_lead st; bl_closed := false |}
-    else
-      {| bl_escaped := false; bl_quotes := bl_quotes st + 1; bl_ws := bl_ws st; bl_reached := bl_reached st; bl_lead := bl_lead st;
-         bl_closed := (bl_quotes st + 1 =? 3) |}
-  else if b =? 92 then
-    {| bl_escaped := negb (bl_escaped st); bl_quotes := 0; bl_ws := 0; bl_reached := bl_reached st; bl_lead := bl_lead st; bl_closed := false |}
   else
-    {| bl_escaped := false; bl_quotes := 0; bl_ws := 0; bl_reached := true;
-       bl_lead := if bl_reached st then bl_lead st else bl_ws st; bl_closed := false |}.
+    let qcontent := negb (bl_quotes st =? 0) && negb (b =? 34) in
+    let reached := if qcontent then true else bl_reached st in
+    let lead := if qcontent then (if bl_reached st then bl_lead st else bl_ws st) else bl_lead st in
+    let ws := if qcontent then 0 else bl_ws st in
+    if is_blockws b then
+      {| bl_escaped := false; bl_quotes := 0; bl_ws := ws + 1; bl_reached := reached; bl_lead := lead; bl_closed := false |}
+    else if b =? 34 then
+      if bl_escaped st then
+        {| bl_escaped := false; bl_quotes := bl_quotes st; bl_ws := ws; bl_reached := reached; bl_lead := lead; bl_closed := false |}
+      else
+        {| bl_escaped := false; bl_quotes := bl_quotes st + 1; bl_ws := ws; bl_reached := reached; bl_lead := lead;
+           bl_closed := (bl_quotes st + 1 =? 3) |}
+    else if b =? 92 then
+      {| bl_escaped := negb (bl_escaped st); bl_quotes := 0; bl_ws := 0; bl_reached := true;
+         bl_lead := if reached then lead else ws; bl_closed := false |}
+    else
+      {| bl_escaped := false; bl_quotes := 0; bl_ws := 0; bl_reached := true;
+         bl_lead := if reached then lead else ws; bl_closed := false |}.
 
 Definition blex_run (raw : bytes) : blex := fold_left blex_step raw blex0.
 
@@ -210,7 +220,8 @@ Fixpoint var_get (n : name) (vs : vars) : option bytes :=
   | (k, v) :: r => if bytes_eqb n k then Some v else var_get n r
   end.
 
-(* quoted string content: bytes below 0x20 are written as backslash u 0 0 h h (fmt %04x), the rest verbatim *)
+(* quoted string content between c15_fix_raw-control-char and c15_fix_braced-unicode-escape (kept for History.v):
+   bytes below 0x20 are written as backslash u 0 0 h h (fmt %04x), the rest verbatim *)
 Fixpoint escape_ctl (s : bytes) : bytes :=
   match s with
   | [] => []
@@ -218,6 +229,75 @@ Fixpoint escape_ctl (s : bytes) : bytes :=
     if b <? 32 then [92; 117; 48; 48; hexdigit (b / 16); hexdigit (b mod 16)] ++ escape_ctl r
     else b :: escape_ctl r
   end.
+
+(* quoted string content since c15_fix_braced-unicode-escape: as [escape_ctl], and in addition the loop
+   follows the escape sequences -- an escaped backslash is copied as a pair, and the braced escape
+   BACKSLASH u { hex+ } (which JSON does not have) is written as BACKSLASH u hhhh, or as a surrogate
+   pair of two such escapes above U+FFFF (utf16.EncodeRune: U+FFFD twice beyond U+10FFFF).
+   [index_byte] is bytes.IndexByte, [parse_hex32] strconv.ParseUint(s, 16, 32), [hex4_of] fmt %04x. *)
+Fixpoint index_byte (c : byte) (s : bytes) : option nat :=
+  match s with
+  | [] => None
+  | b :: r => if b =? c then Some O else match index_byte c r with Some i => Some (S i) | None => None end
+  end.
+Fixpoint parse_hex_acc (acc : N) (s : bytes) : option N :=
+  match s with
+  | [] => Some acc
+  | b :: r =>
+    match hexval b with
+    | Some h => if acc * 16 + h <? 4294967296 then parse_hex_acc (acc * 16 + h) r else None
+    | None => None
+    end
+  end.
+Definition parse_hex32 (s : bytes) : option N := match s with [] => None | _ => parse_hex_acc 0 s end.
+Definition hex4_of (n : N) : bytes :=
+  [hexdigit (n / 4096); hexdigit ((n / 256) mod 16); hexdigit ((n / 16) mod 16); hexdigit (n mod 16)].
+Definition braced_json (cp : N) : bytes :=
+  if 65535 <? cp then
+    let r1 := if cp <=? 1114111 then 55296 + (cp - 65536) / 1024 else 65533 in
+    let r2 := if cp <=? 1114111 then 56320 + (cp - 65536) mod 1024 else 65533 in
+    117 :: hex4_of r1 ++ [92; 117] ++ hex4_of r2
+  else 117 :: hex4_of cp.
+(* [rest] is what follows a backslash; the JSON text that replaces `u{...}` and the number of bytes of [rest] it stands for *)
+Definition braced_escape (rest : bytes) : option (bytes * nat) :=
+  match rest with
+  | u :: ob :: r2 =>
+    if (u =? 117) && (ob =? 123) then
+      match index_byte 125 rest with
+      | Some e =>
+        if Nat.ltb 2 e then
+          match parse_hex32 (firstn (e - 2) r2) with
+          | Some cp => Some (braced_json cp, S e)
+          | None => None
+          end
+        else None
+      | None => None
+      end
+    else None
+  | _ => None
+  end.
+Fixpoint quoted_json_body (fuel : nat) (s : bytes) : bytes :=
+  match fuel with
+  | O => []
+  | S f =>
+    match s with
+    | [] => []
+    | c :: r =>
+      if c <? 32 then [92; 117; 48; 48; hexdigit (c / 16); hexdigit (c mod 16)] ++ quoted_json_body f r
+      else if negb (c =? 92) then c :: quoted_json_body f r
+      else
+        match r with
+        | [] => [c]
+        | e :: r1 =>
+          if e =? 92 then c :: 92 :: quoted_json_body f r1
+          else match braced_escape r with
+               | Some (out, n) => c :: out ++ quoted_json_body f (skipn n r)
+               | None => c :: quoted_json_body f r
+               end
+        end
+    end
+  end.
+Definition quoted_json (raw : bytes) : bytes := quoted_json_body (length raw) raw.
 
 Definition lit_null : bytes := [110; 117; 108; 108].
 Definition lit_true : bytes := [116; 114; 117; 101].
@@ -245,7 +325,7 @@ Fixpoint value_to_json (vs : vars) (v : value) : bytes :=
   | VInt raw => raw          (* '-' (when Negative) followed by IntValueRaw *)
   | VFloat raw => raw
   | VBool b => if b then lit_true else lit_false
-  | VStr raw false => wrap_quotes (escape_ctl raw)
+  | VStr raw false => wrap_quotes (quoted_json raw)
   | VStr raw true => json_encode_string (block_string_value raw)
   | VList items =>
     91 :: join_comma ((fix go (l : list value) : list bytes :=
